@@ -80,6 +80,16 @@ class ILOpsHolder:
         else:
             raise ValueError(f'Did not find op: "{name}"!')
 
+    def is_referenced(self, op) -> bool:
+        """True if any other op added so far uses the given op as operand."""
+        for other in list(self.exec_ops.values()) + list(self.write_ops.values()):
+            if other is op:
+                continue
+            operands = getattr(other, "effect_ops", None) or getattr(other, "ops", None) or []
+            if any(o is op for o in operands):
+                return True
+        return False
+
     def rm_op_by_name(self, name: str) -> None:
         if name in self.read_ops:
             pure = self.read_ops.pop(name)
